@@ -85,3 +85,121 @@ m("ctl-by-srv-by-src-overwrite-equivalent", [], "src/types/balance/all_carriers.
   "                *hash_srv.entry(*service).or_default() += epus_for_srv_for_src;",
   "                *hash_srv.entry(*service).or_default() = *epus_for_srv_for_src;",
   "by-service-by-source map overwritten instead of accumulated (only visible with the same source on two carriers: never; control for detectability)")
+
+# ---- C05
+m("c05-pool-production-over-ids", ["C05"], "src/components.rs",
+  "            let prod: Vec<_> = components_for_id\n                .clone()\n                .filter(|c| c.is_generated())\n                .collect();",
+  "            let prod: Vec<_> = env_comps.iter().filter(|c| c.is_generated()).collect();",
+  "declared production of every system offsets this system's use")
+m("c05-complete-only-when-no-production", ["C05"], "src/components.rs",
+  "                    .map(|&v| if v > 0.0 { v } else { 0.0 })\n                    .collect()\n            };",
+  "                    .map(|&_v| 0.0)\n                    .collect()\n            };",
+  "partial declared production is not completed")
+m("c05-abs-instead-of-positive-part", ["C05"], "src/components.rs",
+  "                    .map(|&v| if v > 0.0 { v } else { 0.0 })\n                    .collect()\n            };",
+  "                    .map(|&v| v.abs())\n                    .collect()\n            };",
+  "surplus production generates extra production")
+m("c05-no-termosolar-completion", ["C05"], "src/components.rs",
+  "        self.complete_produced_for_onsite_generated_use(Carrier::TERMOSOLAR);\n", "",
+  "only ambient energy is completed")
+m("c05-drop-comment-used", ["C05", "C18"], "src/types/energy/used.rs",
+  "        let comment = items.get(1).unwrap_or(&\"\").to_string();\n        let items: Vec<&str> = items[0].split(',').map(str::trim).collect();\n\n        // Minimal possible length (carrier + type + subtype + 1 value)",
+  "        let comment = String::new();\n        let items: Vec<&str> = items[0].split(',').map(str::trim).collect();\n\n        // Minimal possible length (carrier + type + subtype + 1 value)",
+  "comments of consumption lines are dropped")
+m("c05-demand-last-line-wins", ["C05"], "src/types/needs/mod.rs",
+  "                Some(vecvecsum(nd, new_values))",
+  "                { let _ = nd; let nv: &Vec<f32> = new_values; Some(nv.to_owned()) }",
+  "a second DEMANDA line of a service replaces the first")
+# ---- C06
+m("c06-F1-reverted", ["C06", "C10"], "src/components.rs",
+  "            self.data.retain(|c| !(c.is_aux() && c.has_id(id)));",
+  "            self.data.retain(|c| !c.is_aux());",
+  "F1 reverted")
+m("c06-F2-reverted", ["C06"], "src/components.rs",
+  "            .filter(|c| c.is_used() || c.is_generated() || c.is_aux())",
+  "            .filter(|c| c.is_used() || c.is_generated())",
+  "F2 reverted")
+m("c06-F3a-reverted", ["C06"], "src/components.rs",
+  "                q_out.iter_mut().for_each(|v| *v = v.abs());",
+  "                q_out.iter_mut().for_each(|v| *v = *v);",
+  "F3a reverted")
+m("c06-F3b-reverted", ["C06"], "src/components.rs",
+  ".map(|(val, tot)| if tot > &0.0 { val / tot } else { frac_an })",
+  ".map(|(val, tot)| if tot > &0.0 { val / tot } else { 0.0 * frac_an })",
+  "F3b reverted")
+m("c06-single-service-shortcut-too-wide", ["C06"], "src/components.rs",
+  "            if services_for_uses_with_id.len() == 1 {",
+  "            if services_for_uses_with_id.len() >= 1 && services_for_uses_with_id.iter().next().unwrap().is_epb() {",
+  "multi-service systems get all auxiliaries on one (arbitrary) service")
+m("c06-abs-per-line", ["C06", "C10"], "src/components.rs",
+  "                            .insert(e.service, vecvecsum(&q_out_by_srv[&e.service], &e.values));",
+  "                            .insert(e.service, vecvecsum(&q_out_by_srv[&e.service], &e.values.iter().map(|v| v.abs()).collect::<Vec<f32>>()));",
+  "magnitude taken per SALIDA line instead of per summed service output")
+# ---- C08
+m("c08-has-nepb-electricity-only", ["C08"], "src/wfactors.rs",
+  "        let has_nepb = components.data.iter().any(|c| c.is_nepb_use());",
+  "        let has_nepb = components.data.iter().any(|c| c.is_nepb_use() && c.is_electricity());",
+  "A_NEPB factors dropped unless electricity has nEPB use")
+m("ctl-c08-cogen-by-use-equivalent", [], "src/wfactors.rs",
+  "        let has_cogen = components.data.iter().any(|c| c.is_cogen_pr());",
+  "        let has_cogen = components.data.iter().any(|c| c.is_cogen_use());",
+  "prepared sets hold no COGEN-source factor, so this filter never removes anything: equivalent")
+m("c08-onsite-el-needs-epb-use", ["C08"], "src/wfactors.rs",
+  "            .any(|c| c.is_electricity() && c.is_onsite_pr());",
+  "            .any(|c| c.is_electricity() && c.is_epb_use());",
+  "on-site electricity factors kept only if there is EPB electricity use")
+m("c08-F5-reverted", ["C08", "C16"], "src/types/energy/elements.rs",
+  "            Energy::Out(_) => false,\n            _ => self.carrier() == Carrier::ELECTRICIDAD,",
+  "            _ => self.carrier() == Carrier::ELECTRICIDAD,",
+  "F5 reverted")
+m("c08-strip-drops-step-b", ["C08"], "src/wfactors.rs",
+  "        self.wdata.retain(|f| f.dest != Dest::A_NEPB || has_nepb);",
+  "        self.wdata.retain(|f| f.dest != Dest::A_NEPB || has_nepb);\n        let exports_el = components.data.iter().any(|c| c.is_electricity() && c.is_onsite_pr());\n        self.wdata.retain(|f| f.step != Step::B || f.carrier == Carrier::ELECTRICIDAD || exports_el);",
+  "step B factors of ambient/solar dropped when there is no on-site electricity")
+# ---- C09
+m("c12-fmatch-annual", ["C02", "C12"], "src/balance.rs",
+  "            .map(|(produced, used)| if *used > 0.0 { produced / used } else { 0.0 })\n            .map(|x| {",
+  "            .map(|(_produced, used)| if *used > 0.0 { E_pr_cr_t.iter().sum::<f32>() / E_EPus_cr_t.iter().sum::<f32>() } else { 0.0 })\n            .map(|x| {",
+  "load matching factor from annual totals (invariant under permutation / subdivision, so C09 rightly stays silent)")
+m("c09-carry-between-steps", ["C09", "C02"], "src/balance.rs",
+  "    let E_exp_cr_used_nEPus_t = vecvecmin(&E_exp_cr_t, &used.nepus_t);",
+  "    let mut E_exp_cr_used_nEPus_t = vecvecmin(&E_exp_cr_t, &used.nepus_t);\n    for i in 1..E_exp_cr_used_nEPus_t.len() { if E_exp_cr_used_nEPus_t[i - 1] > 0.0 { E_exp_cr_used_nEPus_t[i] *= 0.999; } }",
+  "a step's nEPB export depends on the previous step")
+# ---- C11
+m("c11-share-threshold-1", ["C11", "C01", "C02"], "src/balance.rs",
+  "if *pr_all > 1e-3 { pr_j / pr_all } else { 0.0 }", "if *pr_all > 1.0 { pr_j / pr_all } else { 0.0 }",
+  "absolute threshold of 1 kWh on the production of a step")
+m("c11-rer-threshold-1", ["C11"], "src/balance.rs",
+  "        if tot > 0.0 {\n            let (onst, nrb)", "        if tot > 1.0 {\n            let (onst, nrb)",
+  "perimeter RERs reported as 0 below 1 kWh of primary energy")
+m("c11-dhw-threshold-1", ["C11", "C15"], "src/cte.rs",
+  "        .get(&Carrier::ELECTRICIDAD)\n        .map(|v| v.abs() < 0.01)", "        .get(&Carrier::ELECTRICIDAD)\n        .map(|v| v.abs() < 1.0)",
+  "DHW electricity below 1 kWh ignored")
+m("c11-constant-in-del", ["C11", "C02", "C04"], "src/balance.rs",
+  "            an: E_del_cr_an + E_del_cr_onsite_an + used.cgnus_an,", "            an: E_del_cr_an + E_del_cr_onsite_an + used.cgnus_an + 0.5,",
+  "constant added to delivered energy")
+m("c11-area-floor", ["C11", "C04", "C02"], "src/types/balance/all_carriers.rs",
+  "        let k_area = if area == 0.0 { 0.0 } else { 1.0 / area };", "        let k_area = if area == 0.0 { 0.0 } else { 1.0 / area.max(1.0) };",
+  "areas below 1 m2 treated as 1 m2")
+# ---- C12
+m("c12-priorities-reversed", ["C12", "C02"], "src/types/prodsource.rs",
+  "vec![Self::EL_INSITU, Self::EL_COGEN]", "vec![Self::EL_COGEN, Self::EL_INSITU]", "cogeneration served first")
+m("ctl-c12-x-inverted-equivalent", [], "src/balance.rs",
+  "            .map(|(produced, used)| if *used > 0.0 { produced / used } else { 0.0 })",
+  "            .map(|(produced, used)| if *produced > 0.0 { used / produced } else { 0.0 })",
+  "formula (32) is symmetric in x <-> 1/x and gives 1 when either is zero: equivalent")
+m("c12-fmatch-wrong-formula", ["C12", "C02"], "src/balance.rs",
+  "                    (x + 1.0 / x - 1.0) / (x + 1.0 / x)", "                    1.0 - 1.0 / (x + 1.0 / x + 1.0)",
+  "another matching function (still within (0.5,1))")
+m("c12-fmatch-ignored-when-off-by-flag", ["C12", "C02"], "src/balance.rs",
+  "        vec![1.0; num_steps]\n    }\n}", "        vec![0.999; num_steps]\n    }\n}",
+  "matching factor 0.999 without load matching")
+# ---- C14
+m("c14-exp-ab-sign", ["C14", "C02", "C03"], "src/balance.rs",
+  "        E_we_exp_cr_an = E_we_exp_cr_an_A + (k_exp * E_we_exp_cr_an_AB); // (formula 20)",
+  "        E_we_exp_cr_an = E_we_exp_cr_an_A - (k_exp * E_we_exp_cr_an_AB); // (formula 20)",
+  "sign of the step AB term")
+m("c07-stepB-default-onsite", ["C07"], "src/wfactors.rs",
+  "            if let Some(factors) = fp_a_red_input {\n                // VECTOR, SRC, A_RED, B, ren, nren == VECTOR, RED, SUMINISTRO, A, ren, nren\n                self.ensure_wfactor(\n                    *c,\n                    *s,\n                    A_RED,\n                    B,\n                    factors,",
+  "            if let Some(factors) = fp_a_red_input {\n                // VECTOR, SRC, A_RED, B, ren, nren == VECTOR, RED, SUMINISTRO, A, ren, nren\n                self.ensure_wfactor(\n                    *c,\n                    *s,\n                    A_RED,\n                    B,\n                    fp_a_input.unwrap_or(factors) * 3.0,",
+  "step B grid export factor = 3 x on-site factor (renewable credit instead of avoided grid resources)")
